@@ -21,6 +21,8 @@ func init() {
 		Rules:       rulesC19,
 		Controls: []controlExpect{
 			{"C19.NULL", "zzControlBadIsNilC19", true},
+			{"C19.CACHEKEY", "zzControlBad_C19_CACHEKEY", true},
+			{"C19.CACHEKEY", "zzControlGood_C19_CACHEKEY", false},
 		},
 	})
 }
@@ -39,6 +41,8 @@ func rulesC19(c *Ctx) {
 	ruleRowComparatorFirstNonZero(c, "C19.CMP", p.SSAFunc(p.Method("objectz", "compoundObjectComparator", "compare")))
 	ruleEvalPure(c, "C19.PURE", "ast", "objectz")
 	ruleBoundedResultTree(c, "C19.BOUNDEDPAGE", "objectz")
+	ruleSortWhole(c, "C19.SORTWHOLE", "objectz")
+	ruleCacheKey(c, "C19.CACHEKEY", "objectz")
 	ruleC19Null(c)
 	ruleUseBeforeCheck(c, "C19.USEBEFORECHECK", c.prodFuncs("objectz"))
 	ruleC19IteratorTotal(c)
